@@ -267,7 +267,8 @@ class Run:
         return st == "transient" or (st in ("pending", "persistent") and self.in_session(x) and x not in self.session.deleted)
 
     def pick(self, arg, pred):
-        c = [e for e in self.objs if e["obj"] is not None and pred(e)]
+        # (an object whose row was deleted behind the session's back and replaced - row_replace - is never operated on again)
+        c = [e for e in self.objs if e["obj"] is not None and not e.get("replaced") and pred(e)]
         return c[arg % len(c)] if c else None
 
     def of(self, *classes):
@@ -1402,7 +1403,7 @@ class Run:
 
     def op_delete(self, a1, a2):
         e = self.pick(a1, lambda e: OS.state_of(e["obj"]) == "persistent" and self.in_session(e["obj"]) and e["obj"] not in self.session.deleted
-                      and e["cls"] not in ("D", "BL"))
+                      and e["cls"] not in ("D", "BL") and not e.get("replaced"))
         if e is None:
             return "skip"
         o = e["obj"]
@@ -1670,8 +1671,8 @@ class Run:
         # objects must agree with the database: persistent <=> row exists
         for e in self.entries():
             o = e["obj"]
-            if not self.in_session(o):
-                continue
+            if not self.in_session(o) or e.get("replaced"):
+                continue       # (replaced: its row was deleted behind the session's back; a rollback brings the object back without a row)
             st = OS.state_of(o)
             pk = OS.pk_of(o)
             tab = self.tab_of(e["cls"])
@@ -1886,7 +1887,8 @@ class Run:
             return
         for e in self.entries():
             x = e["obj"]
-            if x is not o and self.in_session(x) and self.m["inspect"](x).key == key and OS.state_of(x) in ("persistent", "deleted"):
+            if x is not o and not e.get("replaced") and self.in_session(x) and self.m["inspect"](x).key == key and \
+                    OS.state_of(x) in ("persistent", "deleted"):
                 self.V("C34", "two_objects_one_identity", "%s returned a second object for identity %s" % (how, key[1:2]))
 
     def op_expire(self, a1, a2):
